@@ -11,6 +11,9 @@
 //   (page ids) and forwards to the kernel; the files are memfds the driver reads back after close().
 //   params: P, cap=<queue capacity>, prog=<threads '_', ops '.'>  op = w<file>x<len> | d<len>
 //           close=safe|drain|raw   rot=<permille: probability that a descriptor check rotates the file>
+//           stall=1: the writer thread is held inside its first descriptor check until every write() has returned
+//                    (a backlog of all remaining entries then arrives in ONE batch; needs cap >= number of writes)
+//   writev behaves like the kernel: more than IOV_MAX (1024) segments -> -1 / EINVAL, nothing written.
 //
 // Precondition O2 (DESIGN 6): an entry of size 0 is the appender's own stop marker, so the driver never
 // hands one to write().
@@ -18,7 +21,9 @@
 #include <babylon/logging/log_entry.h>
 #include <babylon/reusable/page_allocator.h>
 
+#include <errno.h>
 #include <fcntl.h>
+#include <limits.h>
 #include <string.h>
 #include <sys/mman.h>
 #include <sys/syscall.h>
@@ -227,6 +232,9 @@ void scenario_entry(const vrun::Params& p) {
 
 // ================================================================================ scenario app
 RecAlloc* g_ra = nullptr;
+long g_writes_total = 0;    // write() calls of the program
+long g_writes_returned = 0; // ... that have returned
+bool g_stall = false;
 
 struct RecFile : public FileObject {
   int fno = 0;
@@ -250,6 +258,10 @@ void RecFile::open_gen() {
 std::tuple<int, int> RecFile::check_and_get_file_descriptor() noexcept {
   checks++;
   if (cur < 0) {
+    if (g_stall) {
+      g_stall = false; // once: hold the writer thread here while the logging threads fill the queue
+      while (g_writes_returned < g_writes_total) ::usleep(100);
+    }
     open_gen();
     vsched::eventf(true, "\"k\":\"check\",\"f\":%d,\"g\":%d,\"rot\":false", fno, (int)keep.size() - 1);
     return {cur, -1};
@@ -302,14 +314,18 @@ void scenario_app(const vrun::Params& p) {
   long expected_bytes = 0;
   for (auto& t : prog)
     for (auto& o : t)
-      if (o.kind == 'w') expected_bytes += (long)o.len;
+      if (o.kind == 'w') {
+        expected_bytes += (long)o.len;
+        g_writes_total++;
+      }
+  g_stall = p.get("stall", 0) != 0;
 
   vrun::begin();
   {
     AsyncFileAppender appender;
     appender.set_page_allocator(ra);
     appender.set_queue_capacity(cap);
-    vsched::eventf(false, "\"k\":\"consts\",\"ipc\":%zu,\"P\":%zu,\"cap\":%zu", LogEntry::INLINE_PAGE_CAPACITY, ra.P, appender._queue.capacity());
+    vsched::eventf(false, "\"k\":\"consts\",\"ipc\":%zu,\"P\":%zu,\"cap\":%zu,\"iovmax\":%d", LogEntry::INLINE_PAGE_CAPACITY, ra.P, appender._queue.capacity(), (int)IOV_MAX);
     appender.initialize(); // the writer thread: managed thread 1
     {
       std::vector<std::thread> ths;
@@ -335,6 +351,7 @@ void scenario_app(const vrun::Params& p) {
               emit_parts("pages", pages);
               emit_parts("bytes", bl);
               appender.write(entry, &files[o.file]);
+              g_writes_returned++;
               vsched::eventf(true, "\"k\":\"wret\",\"e\":%d", e);
             } else {
               vsched::eventf(true, "\"k\":\"dcall\",\"e\":%d,\"n\":%zu,\"size\":%zu", e, o.len, entry.size);
@@ -390,7 +407,7 @@ void scenario_app(const vrun::Params& p) {
 struct Reg {
   Reg() {
     vrun::add("entry", scenario_entry, "P=24,prog=3.17.1,data_max=420");
-    vrun::add("app", scenario_app, "P=24,cap=2,prog=w0x10,close=safe,rot=0");
+    vrun::add("app", scenario_app, "P=24,cap=2,prog=w0x10,close=safe,rot=0,stall=0");
   }
 } reg;
 
@@ -405,8 +422,12 @@ extern "C" ssize_t writev(int fd, const struct iovec* iov, int cnt) {
     auto it = g_fd_owner.find(fd);
     int f = it == g_fd_owner.end() ? -1 : it->second.first;
     int g = it == g_fd_owner.end() ? -1 : it->second.second;
-    vsched::eventf(true, "\"k\":\"writev\",\"f\":%d,\"g\":%d,\"cnt\":%d", f, g, cnt);
+    vsched::eventf(true, "\"k\":\"writev\",\"f\":%d,\"g\":%d,\"cnt\":%d,\"einval\":%s", f, g, cnt, cnt > IOV_MAX ? "true" : "false");
     emit_parts("segs", segs);
+  }
+  if (cnt > IOV_MAX || cnt < 0) { // what the kernel does
+    errno = EINVAL;
+    return -1;
   }
   return (ssize_t)::syscall(SYS_writev, fd, iov, cnt);
 }
